@@ -40,10 +40,6 @@ func (s *Scen) Fail(props []string, sig, what string) {
 			hit = true
 		}
 	}
-	if !hit {
-		s.Res.Count("other_property_observation:"+props[0]+":"+sig, 1)
-		return
-	}
 	if keep := os.Getenv("VERIF_DEV_KEEP"); keep != "" {
 		os.MkdirAll(keep, 0755)
 		for _, p := range s.Cl.Reps {
@@ -56,6 +52,17 @@ func (s *Scen) Fail(props []string, sig, what string) {
 			fsx.CopyDir(p.Dir, filepath.Join(keep, fmt.Sprintf("case%d-r%d-dir", s.Case, p.Idx)))
 		}
 		os.WriteFile(filepath.Join(keep, fmt.Sprintf("case%d-events.txt", s.Case)), []byte(strings.Join(s.Cl.Events, "\n")+"\n"+what), 0644)
+	}
+	if !hit {
+		s.Res.Count("other_property_observation:"+props[0]+":"+sig, 1)
+		if len(s.Res.Notes) < 6 {
+			w := what
+			if len(w) > 400 {
+				w = w[:400]
+			}
+			s.Res.Notes = append(s.Res.Notes, fmt.Sprintf("case %d observed %s:%s (not the property under check): %s", s.Case, props[0], sig, w))
+		}
+		return
 	}
 	wit := map[string]interface{}{"config": s.Cfg, "events": s.Cl.Events, "io_errors": s.Cl.IOErrs}
 	for _, p := range s.Cl.Reps {
